@@ -35,3 +35,11 @@ def run(tier):
 
 
 replay = oc.generic_replay
+
+
+META = {
+    'technique': 'Ops1.tla scenarios (value-agnostic transducers) replayed with tokens decoded to falsy Python values, compared by (type, value)',
+    'level': "Every element-wise and aggregate scenario enumerated by TLC is replayed with the value tokens decoded to None, 0, '', (), [], {}, 0.0, False in all rotations; the expected outputs come from the value-blind model, so a falsy element that is dropped, replaced or mistaken for absence is a mismatch. Subjects and time operators use the same pool in C15, C20-C23.",
+    'note': 'TLC 1.8; falsy pool restricted to pairwise non-equal / hashable members where the operator compares or hashes',
+    'ref': 'DESIGN.md 6 C08',
+}
